@@ -24,7 +24,7 @@ import nodeops
 PID = 'C02'
 MODNAME = 'C02'
 PROPS_FILE = 'Props/C02.v'
-COQ_FILES = ['Proofs/Pipeline.v', 'Props/C02.v']
+COQ_FILES = ['Proofs/Pipeline.v', 'Proofs/Verdicts.v', 'Props/C02.v']
 ASSUMPTIONS = [
     'classes use automatic recognition (no _yatiml_recognize); parameters are read from the signature by the harness itself, not through yatiml.introspection',
     'the reference oracle covers the hierarchy-free fragment with default-tagged documents (no explicit tags, merge keys or aliases); the rest is decided by the model tie',
